@@ -139,6 +139,48 @@ pub fn malformed(_cex: &Value) -> Result<String, String> {
       });
     }
   }
+  // SD-JWT VC type metadata: claim paths of any shape (positions at, before and past the end of the addressed array, names that
+  // are missing, wildcard on scalars) against values of any shape, for every disclosability setting - an error or Ok, no panic
+  {
+    use identity_credential::sd_jwt_vc::metadata::ClaimMetadata;
+    let values = [
+      serde_json::json!({}),
+      serde_json::json!({"a": []}),
+      serde_json::json!({"a": [1]}),
+      serde_json::json!({"a": [1, {"b": [2, 3]}, []]}),
+      serde_json::json!({"a": {"b": []}, "_sd": ["x"]}),
+      serde_json::json!({"a": [[], [[]], [1, 2, 3]]}),
+      serde_json::json!([1, 2]),
+      serde_json::json!(null),
+      serde_json::json!("text"),
+    ];
+    let mut paths: Vec<serde_json::Value> = Vec::new();
+    for i in [0u64, 1, 2, 3, 4, u32::MAX as u64, u64::MAX >> 1] {
+      paths.push(serde_json::json!(["a", i]));
+      paths.push(serde_json::json!(["a", i, "b", i]));
+      paths.push(serde_json::json!(["a", null, i]));
+      paths.push(serde_json::json!(["a", 2, i]));
+      paths.push(serde_json::json!([i]));
+      paths.push(serde_json::json!(["a", "b", i]));
+    }
+    paths.push(serde_json::json!(["a"]));
+    paths.push(serde_json::json!(["missing", 0]));
+    paths.push(serde_json::json!([null]));
+    paths.push(serde_json::json!(["a", null, null]));
+    for path in &paths {
+      for sd in ["always", "allowed", "never"] {
+        let Ok(meta) = serde_json::from_value::<ClaimMetadata>(serde_json::json!({"path": path, "sd": sd})) else {
+          continue;
+        };
+        for v in &values {
+          let (m2, v2) = (meta.clone(), v.clone());
+          probe("ClaimMetadata::check_value_disclosability", format!("{path} / {sd} / {v}").as_bytes(), &move |_p: &[u8]| {
+            let _ = m2.check_value_disclosability(&v2);
+          });
+        }
+      }
+    }
+  }
   // JOSE
   let k = crate::jws::key("keyA", None);
   for ser in [crate::jws::Ser::Compact, crate::jws::Ser::Flattened, crate::jws::Ser::General] {
